@@ -8,13 +8,17 @@ def run(ctx):
                 "triples, isInNetEx CIDRs, sortIpAddressList permutations, DNS stubs), decision-tree scripts and result "
                 "lists with expected values; each runs through the real goja-based ProxyResolver / Proxies parser. "
                 "Entry-point/result-type rules are a fixed table; the pool is hammered by 32 goroutines with a script "
-                "keeping VM-global state (PacPool model). Non-trivial = helper result true/non-zero, script with >1 "
+                "keeping VM-global state, one evaluation in five failing (throw / non-string result) (PacPool model: bag of idle VMs, EvalFail). Non-trivial = helper result true/non-zero, script with >1 "
                 "distinct outcome, result list with >1 entry or an error.")
     sfx = "Q" if q else "T"
     ctx.mc("PacHelpers.tla", "MC_PacHelpers.cfg")
     ctx.mc("PacScript.tla", "MC_PacScript.cfg")
     ctx.mc("PacResult.tla", "MC_PacResult.cfg")
     ctx.mc("PacPool.tla", "MC_PacPool.cfg")
+    for m in ("MC_PacPool_mutant.cfg", "MC_PacPool_mutant2.cfg"):   # put-early / put-twice must break exclusivity
+        ok, _, _, _ = ctx.mc("PacPool.tla", m, expect_ok=False)
+        if ok:
+            raise vlib.Infra("PacPool mutant %s not detected by the model" % m)
     binp = ctx.build()
 
     recs, _, _, _ = ctx.gen("PacHelpers.tla", "GEN_PacHelpers_%s.cfg" % sfx)
@@ -77,6 +81,8 @@ def run(ctx):
     r = out[0]
     ctx.evaluations += r["evals"]
     ctx.nontrivial.add("pool")
+    if not r.get("fails"):
+        raise vlib.Infra("c14-pool: no failing evaluation was exercised")
     if not r["ok"]:
         ctx.violation("C14:pool", r)
     else:
